@@ -137,6 +137,20 @@ TEnv == /\ IsEvent("env")
                    built256 |-> Ev.built256, hook |-> Ev.hook]
         /\ UNCHANGED <<ks, tks, mks, ctr, par, live>>
 
+(* C13 on any x86 model: from this event on the process sees the CPU described in it (the     *)
+(* driver answers every CPUID instruction from that description, see harness/drv.c).  What    *)
+(* a correct probe may conclude: SSE2 from leaf 1; AVX2 only if leaf 7 exists (maxleaf >= 7), *)
+(* its EBX bit 5 is set AND the operating system has enabled the YMM state (OSXSAVE and       *)
+(* XCR0[2:1] = 11b).  All other register bits are noise.                                      *)
+TCpu == /\ IsEvent("cpu")
+        /\ Chk("CPUID faulting available", 1, Ev.ok)
+        /\ IF Ev.on = 1
+           THEN env' = [env EXCEPT !.sse2 = Ev.sse2,
+                                   !.avx2 = IF Ev.maxleaf >= 7 /\ Ev.avx2 = 1 /\ Ev.osxsave = 1 /\ Ev.ymm = 1
+                                            THEN 1 ELSE 0]
+           ELSE UNCHANGED env
+        /\ UNCHANGED <<ks, tks, mks, ctr, par, live>>
+
 TLayout == /\ IsEvent("layout")
            /\ Chk("layout heap balance", 0, Ev.lv)
            /\ UNCHANGED <<env, ks, tks, mks, ctr, par, live>>
@@ -621,7 +635,7 @@ TParCryptM  == ParCrypt("par_crypt", TRUE)
 
 ----------------------------------------------------------------------------
 TraceNext ==
-    \/ TEnv \/ TLayout \/ TReset \/ TQuiesce \/ TShare \/ TStaticData
+    \/ TEnv \/ TCpu \/ TLayout \/ TReset \/ TQuiesce \/ TShare \/ TStaticData
     \/ TKsSetKey \/ TKsSetKeyInner \/ TKsSetTweakedKey \/ TKsSetTweak \/ TKsEnc \/ TKsDec
     \/ TMkSetKey \/ TMkSetTweak \/ TMkSwap \/ TMkCrypt \/ TMkCryptTw
     \/ TCtrInit \/ TCtrCleanup \/ TCtrSetKey \/ TCtrSetTweakedKey \/ TCtrSetTweak
